@@ -212,6 +212,61 @@ def _shares(ctx: Ctx) -> None:
         _call(ctx, "slip39.share_from_mnemonic/hostile-set", lambda m=m: slip39.share_from_mnemonic(m))
 
 
+def _scripts(ctx: Ctx) -> None:
+    """A wallet classifies the scriptPubKey of an output a peer's transaction pays: an honest script of a
+    standard type with one field damaged (a push cut short, a length marker or a count moved, an octet
+    dropped or doubled). The `is_*` questions answer True or False for bytes; the classifier and what is
+    built on it (address, payload) answer or refuse with a library exception."""
+    from btclib.script import script_pub_key as spk  # noqa: PLC0415
+
+    ch = ctx.ch
+    key33 = b"\x02" + bytes.fromhex("79be667ef9dcbbac55a06295ce870b07029bfcdb2dce28d959f2815b16f81798")
+    key33b = b"\x03" + bytes.fromhex("f9308a019258c31049344f85f89d5229b531c845836f99b08601f113bce036f9")
+    n = 1 + ch.draw(5, "sc.n")
+    m = 1 + ch.draw(n, "sc.m")
+    honest = {
+        "p2pk": b"\x21" + key33 + b"\xac",
+        "p2pkh": b"\x76\xa9\x14" + bytes(range(20)) + b"\x88\xac",
+        "p2sh": b"\xa9\x14" + bytes(range(20)) + b"\x87",
+        "p2ms": bytes([0x50 + m]) + b"".join(b"\x21" + (key33 if i % 2 else key33b) for i in range(n)) + bytes([0x50 + n, 0xAE]),
+        "nulldata": b"\x6a\x4c\x50" + bytes(80),
+        "p2wpkh": b"\x00\x14" + bytes(range(20)),
+        "p2wsh": b"\x00\x20" + bytes(range(32)),
+        "p2tr": b"\x51\x20" + key33[1:],
+    }
+    kind = ch.pick(sorted(honest), "sc.kind")
+    raw = bytearray(honest[kind])
+    for _ in range(ch.draw(3, "sc.edits")):
+        if not raw:
+            break
+        i = ch.draw(len(raw), "sc.at")
+        how = ch.draw(6, "sc.how")
+        if how == 0:
+            del raw[i:i + 1 + ch.draw(40, "sc.cut")]  # octets dropped: every push behind them is short or shifted
+        elif how == 1:
+            raw[i] = ch.pick([0, 1, 0x20, 0x21, 0x41, 0x4B, 0x4C, 0x4D, 0x4E, 0x4F, 0x50, 0x51, 0x60, 0x61, 0xAE, 0xFF], "sc.octet")
+        elif how == 2:
+            raw[i:i] = raw[i:i + 1 + ch.draw(34, "sc.dup")]
+        elif how == 3:
+            del raw[len(raw) - 1 - ch.draw(min(len(raw), 40), "sc.tail"):-2 or None]  # the tail cut short, the last op codes kept
+        elif how == 4:
+            raw[i] ^= 1 << ch.draw(8, "sc.bit")
+        else:
+            raw[i:i] = ch.nbytes(ch.draw(5, "sc.ins"), "sc.insb")
+    script = bytes(raw)
+    ctx.fault("hostile-script", f"{kind} len={len(script)}")
+    ctx.log("script", kind, script.hex()[:80])
+    for name in ("is_p2pk", "is_p2pkh", "is_p2sh", "is_p2ms", "is_nulldata", "is_segwit", "is_p2wpkh", "is_p2wsh", "is_p2tr"):
+        _call(ctx, f"script_pub_key.{name}/damaged", lambda name=name: getattr(spk, name)(script), predicate=True)
+    _call(ctx, "script_pub_key.type_and_payload/damaged", lambda: spk.type_and_payload(script))
+    _call(ctx, "script_pub_key.address/damaged", lambda: spk.address(script))
+    obj = _call(ctx, "ScriptPubKey/damaged", lambda: spk.ScriptPubKey(script))
+    if obj is not None:
+        _call(ctx, "ScriptPubKey.type/damaged", lambda: obj.type)
+        _call(ctx, "ScriptPubKey.address/damaged", lambda: obj.address)
+        _call(ctx, "ScriptPubKey.addresses/damaged", lambda: obj.addresses)
+
+
 def run(ctx: Ctx) -> None:
     with memory_budget():
         _run(ctx)
@@ -220,9 +275,9 @@ def run(ctx: Ctx) -> None:
 def _run(ctx: Ctx) -> None:
     old = signal.signal(signal.SIGVTALRM, _on_vtalrm)
     try:
-        part = ctx.cfg.get("part") or ctx.ch.pick(["filters", "filters", "proofs", "signatures", "shares", "shares"], "part")
+        part = ctx.cfg.get("part") or ctx.ch.pick(["filters", "filters", "proofs", "signatures", "shares", "shares", "scripts", "scripts"], "part")
         ctx.state(part)
-        {"filters": _filters, "proofs": _proofs, "signatures": _signatures, "shares": _shares}[part](ctx)
+        {"filters": _filters, "proofs": _proofs, "signatures": _signatures, "shares": _shares, "scripts": _scripts}[part](ctx)
     finally:
         signal.setitimer(signal.ITIMER_VIRTUAL, 0)
         signal.signal(signal.SIGVTALRM, old)
@@ -235,7 +290,7 @@ CHECKS = {
         "rule": (
             "hostile: one evaluation = one message written by a malicious peer (a cfilter whose coded set is runs of one octet up to "
             "64 KiB and noise under a drawn element count; a merkle branch of 0..5000 hashes of right and wrong widths with indexes "
-            "up to 2^300; message signatures and DLEQ proofs of hostile lengths) handed to the decoder / verifier a receiver runs."
+            "up to 2^300; message signatures and DLEQ proofs of hostile lengths; a standard scriptPubKey with pushes cut short, markers and counts moved, asked of every is_* question and the classifier) handed to the decoder / verifier a receiver runs."
         ),
         "assumptions": ["per-call CPU budget of 10 s (ITIMER_VIRTUAL)"],
     },
